@@ -149,6 +149,13 @@ json refusal(Rng &r, const std::vector<OptRef> &refs, int cl)
 			s["refusal"] = "addtsec_on_value_option";
 			return s;
 		case 8:
+			if (value_opt && r.chance(1, 2)) {
+				// a bulk set without any value
+				s["op"] = "setmulti";
+				s["vals"] = json::array();
+				s["refusal"] = "bulk_without_values";
+				return s;
+			}
 			s["name"] = "nosuchoption";
 			s["op"] = "setint";
 			s["v"] = 1;
